@@ -152,6 +152,20 @@ def canon_into_order(toks):
         items[i] = it
     return [t for it in items for t in it]
 
+def run_classes(cases, features='ALL'):
+    """cases: list of (id, sexp) -> {id: (all classes, classes modulo the known gap, gap?)}  (Spec/Invalid.v, extracted)"""
+    inp = ''.join('CLASSES\t%s\t%s\t%s\n' % (cid, features, sx) for cid, sx in cases)
+    p = subprocess.run([MODEL], input=inp, capture_output=True, text=True)
+    if p.returncode != 0:
+        raise RuntimeError('modeldriver failed: ' + p.stderr[-2000:])
+    out = {}
+    for line in p.stdout.split('\n'):
+        parts = line.split('\t', 2)
+        if len(parts) == 3 and parts[1] == 'CLASSES' and parts[2] != 'BADINPUT':
+            a, b, g = parts[2].split('|')
+            out[parts[0]] = ([x for x in a.split(',') if x], [x for x in b.split(',') if x], g == 'gap')
+    return out
+
 def compare(real, model):
     """returns (verdict, detail): verdict in same | ood | diff"""
     rc, rp = real
